@@ -535,6 +535,10 @@ func (r *Reader) ReadMessage(codec Codec) (messageInstance any, err error) {
 		return nil, err
 	}
 
+	if messageName == nilMessageName {
+		return nil, nil
+	}
+
 	if messageDesc := QueryMessageDescByName(messageName); !messageDesc.IsOutside() {
 		// 内部消息反序列化
 		internalReader := NewReaderFromPool(messageData)
@@ -545,6 +549,9 @@ func (r *Reader) ReadMessage(codec Codec) (messageInstance any, err error) {
 		}
 	} else {
 		// 外部消息反序列化
+		if codec == nil {
+			return nil, fmt.Errorf("message name %q is not registered and no codec is configured", messageName)
+		}
 		messageInstance, err = codec.Decode(messageData)
 		if err != nil {
 			return
